@@ -16,12 +16,10 @@ theorem setMiniFat_ok {p p' : P} {idx val : Nat} (h : setMiniFat p idx val = .ok
     split at h
     · cases h
     · split at h
-      · cases h
+      · cases h; exact ⟨rfl, Or.inl rfl⟩
       · split at h
-        · cases h; exact ⟨rfl, Or.inl rfl⟩
-        · split at h
-          · cases h; exact ⟨rfl, Or.inr rfl⟩
-          · cases h
+        · cases h; exact ⟨rfl, Or.inr rfl⟩
+        · cases h
 
 /-- popping candidates never touches the file or the mini stream -/
 theorem popFreeMini_ok (fuel : Nat) : ∀ {p p1 : P} {r : Option Nat}, popFreeMini p fuel = .ok (p1, r) →
